@@ -240,6 +240,15 @@ func (e *Environment) makeRef(name string) (*Reference, bool) {
 	return nil, false
 }
 
+// Predefined tells if Get resolves that name before looking at any variable of this environment
+// (info, self and the name of the function being executed): a variable of that name can't be read back.
+func (e *Environment) Predefined(name string) bool {
+	if name == "info" || name == "self" {
+		return true
+	}
+	return e.function != nil && e.function.Name != nil && name == e.function.Name.Literal()
+}
+
 func (e *Environment) Get(name string) (Object, bool) {
 	if name == "info" {
 		e.TriggerNoCache()
